@@ -333,12 +333,15 @@ def translate():
                     c["test"] = "true"
                     bo = body.index("{", tests[0])
                     blk = " ".join(body[bo + 1:match_close(body, bo, "{", "}")].split())
-                    stmts = [s.strip() for s in re.split(r"(?<=[\w)\]]) (?=(?:vfs\.|volumeName|curDir))", blk)]
+                    stmts = [s.strip() for s in re.split(r"(?<=[\w)\]}]) (?=(?:vfs\.|volumeName|curDir))", blk)]
                     known = {"vfs.dirMode |= avfs.DefaultDirPerm": "wd", "vfs.fileMode |= avfs.DefaultFilePerm": "wf",
                              "volumeName = avfs.DefaultVolume": "vol", "curDir = volumeName + string(vfs.PathSeparator())": "cur"}
                     if fsname == "memfs":
                         known["vfs.volumes = make(volumes)"] = "mk"
                         known["vfs.volumes[volumeName] = vfs.rootNode"] = "root"
+                        # the same two statements since the volume table is a mutex-guarded struct
+                        known["vfs.volumes = &volumes{roots: make(map[string]*dirNode)}"] = "mk"
+                        known["vfs.volumes.add(volumeName, vfs.rootNode)"] = "root"
                     seen = set()
                     for s in stmts:
                         if s in known:
